@@ -114,4 +114,10 @@ CLAIMS = {
         "note": "metamorphic oracle (Never == StripStream, AlwaysAnsi/Always == identity); Windows-only Wincon arm is not reachable on this platform",
         "technique": "runtime monitoring: lock-step differential execution of operation histories against reference streams",
     },
+    "C09": {
+        "text": "The whole finite configuration space named by the property (3072 environments x 5 stream kinds, terminal and non-terminal) is enumerated in a single-threaded child and every decision logged; an offline checker evaluates the documented decision table over the event log and requires every tuple to be present.  COLORTERM, the clap flag mapping and unusual values are covered separately.",
+        "design_ref": "7 C09, 3.4",
+        "note": "needs a pty for the terminal half (inconclusive, not passed, if none can be opened); Windows-specific probes are not executed",
+        "technique": "runtime monitoring: exhaustive configuration enumeration in a child process + offline event-log checker against a decision table",
+    },
 }
